@@ -48,10 +48,14 @@ JoinRightNames(ln, rn, ron, rname, usfx) ==
         R == SeqSet(rn)
         auto == "_" \o (IF rname = "" THEN "right" ELSE rname)
         clash == L \cap R
-        need(k) == \E n \in R : (n \o auto \o "_" \o ToString(k)) \in L
-        kk == IF \E n \in R : (n \o auto) \in L THEN CHOOSE k \in 1..50 : ~need(k) /\ \A j \in 1..(k - 1) : need(j) ELSE 0
-        sfx == IF kk = 0 THEN auto ELSE auto \o "_" \o ToString(kk)
         onlyJoin == ((R \ SeqSet(ron)) \cap L) = {}
+        renamed == IF onlyJoin THEN clash ELSE R            \* if only join columns clash, only the clashing columns are renamed
+        taken == L \cup (R \ renamed)
+        S(k) == IF k = 0 THEN auto ELSE auto \o "_" \o ToString(k)
+        need(k) == \E n \in renamed : (n \o S(k)) \in taken
+        \* the smallest integer that resolves all collisions (as repaired by F28; the documentation only says "an integer")
+        kk == CHOOSE k \in 0..50 : ~need(k) /\ \A j \in 0..(k - 1) : need(j)
+        sfx == S(kk)
     IN  IF usfx # "" THEN [i \in DOMAIN rn |-> rn[i] \o usfx]
         ELSE IF clash = {} THEN rn
         ELSE IF onlyJoin THEN [i \in DOMAIN rn |-> IF rn[i] \in L THEN rn[i] \o sfx ELSE rn[i]]
